@@ -787,6 +787,9 @@ def delete_pointless_statements(source: str) -> str:
     ast_tree = core.parse(source)
     safe_callables = parsing.safe_callable_names(ast_tree)
     for node in itertools.chain([ast_tree], parsing.iter_bodies_recursive(ast_tree)):
+        if isinstance(node, ast.Try):
+            continue  # A statement in a try block may be there because it can raise
+
         for i, child in enumerate(node.body):
             if not core.has_side_effect(child, safe_callables):
                 if i > 0 or not _is_pointless_string(child):  # Docstring
